@@ -124,6 +124,13 @@ fn gen_c12(run_seed: u64, tier: Tier) -> (Scenario, &'static str) {
     };
     // one run in twelve: a pipeline of several kilobytes sent in few pieces, so that the
     // connection's own 4 KiB read buffer ends at arbitrary offsets inside frames
+    // one run in ten: a small item limit and, somewhere in the pipeline, a request above it whose
+    // body arrives in several reads with the following requests right behind it
+    let with_oversized = rng.chance(1, 10);
+    if with_oversized {
+        sc.knobs.item_limit = *rng.pick(&[1024u32, 2048, 4096]);
+    }
+    let oversized_at = if with_oversized { Some(rng.usize(12)) } else { None };
     let long = rng.chance(1, 12);
     let total = if long { rng.range(120, 400) as usize } else { rng.range(1, max_cmds) as usize };
     let quiet_heavy = rng.chance(1, 2) || long;
@@ -166,6 +173,10 @@ fn gen_c12(run_seed: u64, tier: Tier) -> (Scenario, &'static str) {
                 }
                 r
             };
+            if oversized_at == Some(i) {
+                let len = sc.knobs.item_limit + *rng.pick(&[1u32, 100, 5000, 20000, 70000]);
+                r = SymReq::store(*rng.pick(&[op::SET, op::SETQ, op::ADD, op::APPEND, op::REPLACE]), &keys[0], Val::Fill { byte: 0x6f, len }, 1, 0, CasSel::Zero);
+            }
             ctr += 1;
             r.opaque = hi | ctr;
             sc.events.push(Ev::Send { c, req: r });
@@ -190,7 +201,8 @@ fn gen_c12(run_seed: u64, tier: Tier) -> (Scenario, &'static str) {
 
 fn claims_c12(v: &Violation) -> bool {
     // a response stream the client cannot parse any more means requests went unanswered
-    v.prop == "C12" || (v.prop == "C11" && v.clause == "not-a-response-frame")
+    // (and a connection task that panics leaves the loud requests of its pipeline unanswered)
+    v.prop == "C12" || (v.prop == "C11" && v.clause == "not-a-response-frame") || (v.prop == "C10" && v.clause.starts_with("panic"))
 }
 
 // ------------------------------------------------------------------ C13
